@@ -64,7 +64,10 @@ def routing_case(draw):
                  for _ in range(draw(st.integers(2, 10)))]
     pair.update({"restr": restr, "ignore_h": draw(st.integers(0, 3)) > 0,
                  "deform": draw(ac.deformation_types(min(ns, ne))),
-                 "guess": len(pair["start"]["residues"]) > 1 and draw(st.booleans())})
+                 "guess": len(pair["start"]["residues"]) > 1 and draw(st.booleans()),
+                 "ignore_default": draw(st.integers(0, 5)) == 0})
+    if pair["ignore_default"]:
+        pair["ignore_h"] = True            # documented default: hydrogens of the fixed molecule are ignored
     return pair
 
 
@@ -86,8 +89,12 @@ def check_routing(case):
             o1 += a
             o2 += b
     with Recorder() as rec:
-        lib("align", ali.align_molecules, None if case.get("guess") else list(restr),
-            None if case["deform"] is None else tuple(case["deform"]), case["ignore_h"], True)
+        if case.get("ignore_default"):
+            lib("align", ali.align_molecules, None if case.get("guess") else list(restr),
+                None if case["deform"] is None else tuple(case["deform"]))
+        else:
+            lib("align", ali.align_molecules, None if case.get("guess") else list(restr),
+                None if case["deform"] is None else tuple(case["deform"]), case["ignore_h"], True)
     if ne == 1:
         if rec.calls:
             raise PropertyViolation("single-atom-end", "optimiser called for a single-atom end molecule")
@@ -269,7 +276,9 @@ def manager_case(draw):
     bad = draw(st.sampled_from([None, None, "unknown-restr", "unknown-deform", "unknown-ignore", "restr-not-pair",
                                 "restr-index", "deform-not-seq", "deform-too-long", "ignore-not-bool"]))
     return {"species": species, "opts": opts, "bad": bad, "seed": draw(gen.SEEDS),
-            "hydrogens": draw(st.booleans())}
+            "hydrogens": draw(st.booleans()),
+            "route": draw(st.sampled_from(["direct", "direct", "preparsed", "preparsed-reordered"])),
+            "dict_order": draw(st.permutations(list(range(nsp))))}
 
 
 def check_manager(case):
@@ -329,7 +338,21 @@ def check_manager(case):
                 return {"nontrivial": True, "classes": ["bad:" + bad]}
             raise PropertyViolation("reject-malformed", "malformed option %s was accepted (%d alignments ran)"
                                     % (bad, len(rec.calls)), cls="reject-malformed:" + bad)
-        lib("align", man.align_molecules, restr or None, deform or None, ignore or None)
+        names = [sp["name"] for sp in case["species"]]
+        order = [names[i] for i in case.get("dict_order", range(len(names)))]
+        # option dictionaries are given in an arbitrary key order
+        deform = {n: deform[n] for n in order if n in deform}
+        ignore = {n: ignore[n] for n in reversed(order) if n in ignore}
+        route = case.get("route", "direct")
+        if route == "direct":
+            restr = {n: restr[n] for n in order if n in restr}
+            lib("align", man.align_molecules, restr or None, deform or None, ignore or None)
+        else:
+            # documented two-step use: validate first, then align with parse_restrictions=False
+            parsed = lib("parse", man.parse_restrictions, restr or None)
+            if route == "preparsed-reordered":
+                parsed = {n: parsed[n] for n in order if n in parsed}
+            lib("align", man.align_molecules, parsed, deform or None, ignore or None, False)
     by_size = {}
     for c in rec.calls:
         by_size[(len(c["mobile"]))] = c
@@ -364,8 +387,9 @@ def check_manager(case):
         if tuple(c["sim_type"]) != exp_def:
             raise PropertyViolation("manager-deformations", "species %s: deformation types %r reached its alignment "
                                     "as %r" % (name, exp_def, c["sim_type"]))
-    return {"nontrivial": True, "classes": ["bad:none", "species:%d" % len(case["species"])],
-            "sample": {"species": case["species"], "opts": case["opts"]}}
+    return {"nontrivial": True, "classes": ["bad:none", "species:%d" % len(case["species"]),
+                                            "route:" + case.get("route", "direct")],
+            "sample": {"species": case["species"], "opts": case["opts"], "route": case.get("route")}}
 
 
 SUBCHECKS = [
